@@ -114,6 +114,8 @@ def _compare_maps(pid, tier, a, b, what):
 def post_c03(pid, tier, cfgs, results):
     """Every configuration is compared with the first one (equality is transitive), chunk by chunk."""
     viol, compared = [], 0
+    if tier == "thorough":
+        viol += run_cross_targets(pid)
     ents = _variants(results)
     if not ents:
         return viol
@@ -192,6 +194,55 @@ def run_fs32_conformance():
         core.die("shadow conformance: the @fs32 shadow and the real 32-bit build (miri i686) disagree:\n" + sa + "\n" + sb + "\n" +
                  "\n".join(f"{x} | {y}" for x, y in zip(a[1:], b[1:]) if x != y)[:1500])
     return dict(status="identical", traces=len(a) - 1, sizes=sa)
+
+
+XTARGETS = ["i686-unknown-linux-gnu", "s390x-unknown-linux-gnu"]
+
+
+def run_cross_targets(pid):
+    """The unmodified /repo crates interpreted for a 32-bit little-endian and a 64-bit big-endian target (miri) must print
+    the same trace set as the native x86-64 build: the function a cipher computes may not depend on the target."""
+    import subprocess
+    env = dict(os.environ)
+    env.update(CARGO_NET_OFFLINE="true", RUSTFLAGS="", MIRIFLAGS="-Zmiri-disable-isolation")
+    env["CARGO_TARGET_DIR"] = os.path.join(core.TARGET, "xtrace")
+    r = subprocess.run(["cargo", "run", "--offline", "-q", "-p", "xtrace"], cwd=core.HARNESS, env=env, capture_output=True, text=True)
+    if r.returncode != 0:
+        core.die("xtrace (native) failed:\n" + r.stderr[-2000:])
+    native = r.stdout.strip().splitlines()
+    info, viol = {"native_traces": len(native), "targets": {}}, []
+    procs = {}
+    for t in XTARGETS:
+        e = dict(env)
+        e["CARGO_TARGET_DIR"] = os.path.join(core.TARGET, "xtrace-miri-" + t.split("-")[0])
+        procs[t] = subprocess.Popen(["cargo", "+nightly", "miri", "run", "--offline", "-q", "-p", "xtrace", "--target", t], cwd=core.HARNESS, env=e,
+                                    stdout=subprocess.PIPE, stderr=subprocess.PIPE, text=True)
+    for t, p in procs.items():
+        try:
+            out, err = p.communicate(timeout=3600)
+        except Exception as ex:  # noqa
+            p.kill()
+            info["targets"][t] = "unavailable: " + str(ex)[:100]
+            continue
+        lines = out.strip().splitlines()
+        if p.returncode != 0 and not lines:
+            info["targets"][t] = "miri interpretation unavailable on this image: " + err[-200:]
+            continue
+        if p.returncode != 0:
+            # the interpreted program itself failed (panic / UB detected by miri) after printing some traces
+            viol.append(dict(property=pid, subject="all crates", what="target-dependent-behaviour", config="miri:" + t,
+                             case={"kind": "xtrace", "target": t}, expected="the trace program completes as it does natively",
+                             observed=(lines[-1] if lines else "") + " ... " + err[-800:], note="the same program fails when interpreted for another target"))
+            continue
+        bad = [(a, b) for a, b in zip(native, lines) if a != b]
+        if len(lines) != len(native) or bad:
+            a, b = bad[0] if bad else ("(missing)", "(missing)")
+            viol.append(dict(property=pid, subject=a.split(" ")[0], what="target-dependent-output", config="miri:" + t,
+                             case={"kind": "xtrace", "target": t, "trace": " ".join(a.split(" ")[:4])}, expected="x86_64: " + a[:300], observed=t + ": " + b[:300],
+                             note="the same key and data give a different result on another target (pointer width / endianness)"))
+        info["targets"][t] = f"{len(lines)} traces, {len(bad)} differ"
+    POST_INFO["cross_target_traces"] = info
+    return viol
 
 
 def run_tfnc(pid, tier):
@@ -534,6 +585,11 @@ def replay(path):
             else:
                 print(f"replay {rnd}: the two builds agree on chunk {case['chunk']}")
         return 1 if bad == 2 else 0 if bad == 0 else 3
+    if kind == "xtrace":
+        viol = run_cross_targets(v["property"])
+        for x in viol:
+            print("replay: VIOLATED:", x["expected"][:200], "|", x["observed"][:200])
+        return 1 if viol else 0
     if kind in ("tfnc", "tfnc-zeroize"):
         res, viol = run_tfnc(v["property"], "quick")
         viol += (res or {}).get("violations", [])
